@@ -194,7 +194,9 @@ def judge(x, baseline_c2, viol, cid, sig, hname, emb):
             viol.append({"case": cid, "clause": "closed-connection-leaves-nothing", "sig": sig, "detail": "handler still pending after close | %s" % sig})
     # connection 2 undisturbed
     view = c2_view(x)
-    if baseline_c2 is not None and sorted(view) != sorted(baseline_c2):
+    # compared as sets: under a deviating schedule connection 2's own event may legitimately arrive twice (stored copy + live push
+    # while its stored query is still running, C05)
+    if baseline_c2 is not None and sorted(set(view)) != sorted(set(baseline_c2)):
         viol.append({"case": cid, "clause": "other-connections-undisturbed", "sig": sig,
                      "detail": "connection 2 saw %r, without the hostile frame it sees %r | %s" % (view[-3:], baseline_c2[-3:], sig)})
     if c2.closed_by_relay is not None or c2.task.done():
